@@ -46,6 +46,12 @@ pub fn run(ctx: &mut Ctx) {
             }
             ctx.count("tilt_cepstra", 1.0);
         }
+        if idx % 6 == 3 {
+            // the gain term is free: very quiet and very loud frames too (the energies the
+            // postfilter compares scale with exp(2 c0))
+            c[0] = if rng.chance(0.7) { rng.uniform(-18.0, -8.0) } else { rng.uniform(5.0, 10.0) };
+            ctx.count("extreme_gain_cepstra", 1.0);
+        }
         if !resonant && order >= 4 && idx % 8 == 2 {
             // exact zeros: the gain term or an interior coefficient
             match rng.below(3) {
